@@ -142,6 +142,14 @@ static std::string oracle(const Case& c) {
             for (const char* junk : {"\xe2\x80\x8b", "\xe7\x9a\x84", "\xc2\xb7", "\xf0\x9f\x98\x80", "\xe2\x80\x8b\xcc\x81"}) for (const char* wrong : {"x", "q"}) { if (nextc == (uint32_t)wrong[0]) continue;
                 std::string m = run_tok(pre + junk + wrong, "class:foreign-character-then-wrong-letter"); if (!m.empty()) return m; }
         }
+        if (lr.prefix) { // overlong tokens: a (possibly empty) prefix of the word followed by filler up to a byte length around 256 — lengths a narrow counter would wrap on
+            for (size_t L : {(size_t)0, (size_t)1, (size_t)3, (size_t)4, (size_t)5, nl}) { if (L > nl) continue; std::string pre = variant(word, L, ~0u, false, "");
+                for (size_t total : {(size_t)255 + pre.size(), (size_t)256 + pre.size(), (size_t)256, (size_t)257}) { if (total <= pre.size()) continue;
+                    std::string m = run_tok(pre + std::string(total - pre.size(), 'x'), "class:overlong-token(~256 bytes)"); if (!m.empty()) return m; } }
+            if (lr.noaccent) for (size_t marks : {(size_t)126, (size_t)128, (size_t)130}) { // accent-blind languages: the word (or its 4-letter abbreviation) followed by >= 252 bytes of combining accents is still that word
+                for (const std::string& pre : {word, nl > 4 ? variant(word, 4, ~0u, false, "") : word}) { std::string tok = pre; for (size_t i = 0; i < marks; i++) tok += "\xcc\x81";
+                    std::string m = run_tok(tok, "class:overlong-token(accents)"); if (!m.empty()) return m; } }
+        }
         if (!lr.noaccent) {
             std::vector<std::string> foreign = {word + "\xe7\x9a\x84", "\xe2\x80\x8b" + word, word + "\xc2\xb7", "\xc3\x86" + word, (nl > 4 ? variant(word, 4, ~0u, false, "") : word) + "\xc3\xb8"};
             for (auto& d : foreign) { std::string m = run_tok(d, "class:decorated-with-foreign-character"); if (!m.empty()) return m; }
